@@ -689,7 +689,11 @@ pub fn check_project_opts(
         let matches_view = match (&vexpect, &out) {
             (Expect::Accept, Outcome::Ok(parsed)) => {
                 let mut stats = CmpStats { keys_compared: 0, renders: 0, defaulted: 0 };
-                compare_accepted(&vm, parsed, &mut stats, co.counts).is_empty()
+                let d = compare_accepted(&vm, parsed, &mut stats, co.counts);
+                if std::env::var("VERIF_DEBUG_KF").is_ok() && !d.is_empty() {
+                    eprintln!("KF-VIEW-MISMATCH {} :: {:?} :: {}", p.describe(), d.iter().take(2).map(|x| (&x.path, &x.loc, &x.what)).collect::<Vec<_>>(), view.describe());
+                }
+                d.is_empty()
             }
             (Expect::Reject(_), Outcome::Err { .. }) => true,
             (Expect::Open(_), Outcome::Ok(_)) | (Expect::Open(_), Outcome::Err { .. }) => true,
@@ -704,6 +708,9 @@ pub fn check_project_opts(
             (Expect::Reject(_), Outcome::Ok(_)) => true,
             _ => false,
         };
+        if std::env::var("VERIF_DEBUG_KF").is_ok() && !(matches_view && differs_from_statement) {
+            eprintln!("KF-DEBUG matches_view={matches_view} differs={differs_from_statement} vexpect={vexpect:?} expect={expect:?} out={} :: {}", out.short(), p.describe());
+        }
         if matches_view && differs_from_statement {
             rep.violation(
                 format!("KF[fk-inside-component] {pid}/{part}: component containing $t(..) read as literal tag text :: {}", vmodel::report::truncate(&p.describe(), 500)),
